@@ -1,11 +1,423 @@
-import Ruint.Model.Conv
-import Ruint.Lemmas.Basic
+import Ruint.Lemmas.Conv
 
-/-! # C07 — integer conversions (property theorems; under construction) -/
+/-!
+# C07 — integer conversions accept exactly the representable range, preserving value
+
+Property theorems only, about the model functions of `Model/Conv.lean` / `Model/Canon.lean` that the
+correspondence driver executes. All widths `bits`; every primitive type is a `Prim` (width, signedness)
+with `width ≤ 64 ∨ width = 128` (`bool` = 1, `usize`/`isize` = 64); source values are integers in the range
+of their type; limb slices have any length.
+-/
 namespace Ruint.C07
 open Ruint Ruint.Conv Ruint.Canon
 
-theorem low1_length (n x : ℕ) : (low1 n x).length = n := by
-  cases n <;> simp [low1]
+/-- a Rust primitive integer type (or `bool`) -/
+def PrimOk (t : Prim) : Prop := 1 ≤ t.width ∧ (t.width ≤ 64 ∨ t.width = 128)
+
+/-! ## primitive → `Uint` -/
+
+/-- `TryFrom<u64>`: `Ok(v)` iff `v < 2^bits`; else `ValueTooLarge(bits, v mod 2^bits)`. -/
+theorem try_from_u64_spec (bits v : ℕ) (hv : v < 2 ^ 64) :
+    (v < 2 ^ bits → ∃ l, tryFromU64 bits v = .ok l ∧ Canon bits l ∧ val l = v)
+    ∧ (2 ^ bits ≤ v → ∃ l, tryFromU64 bits v = .tooLarge bits l ∧ Canon bits l ∧ val l = v % 2 ^ bits) :=
+  tryFromU64_spec bits v hv
+
+/-- `TryFrom<u128>` (all three arms, repaired payload). -/
+theorem try_from_u128_spec (bits v : ℕ) (hv : v < 2 ^ 128) :
+    (v < 2 ^ bits → ∃ l, tryFromU128 bits v = .ok l ∧ Canon bits l ∧ val l = v)
+    ∧ (2 ^ bits ≤ v → ∃ l, tryFromU128 bits v = .tooLarge bits l ∧ Canon bits l ∧ val l = v % 2 ^ bits) :=
+  tryFromU128_spec bits v (by unfold W; norm_num at hv ⊢; omega)
+
+/-- the pinned tree's payload (`limbs[1] %= MASK`) was wrong: `U65` from `3·2^64 + 5`. -/
+theorem old_u128_payload_wrong :
+    tryFromU128Old 65 (3 * 2 ^ 64 + 5) = .tooLarge 65 [5, 0]
+    ∧ tryFromU128 65 (3 * 2 ^ 64 + 5) = .tooLarge 65 [5, 1]
+    ∧ (3 * 2 ^ 64 + 5) % 2 ^ 65 = val [5, 1] := by
+  decide +kernel
+
+/-- **`Uint::try_from(v : T)`** for every primitive `T` and every `v : T`:
+    `Ok` iff `0 ≤ v < 2^bits` (value preserved); `ValueNegative(bits, p)` for `v < 0` with
+    `p = (v as uN) mod 2^bits`, which is `v mod 2^bits` whenever `bits ≤ N`;
+    `ValueTooLarge(bits, v mod 2^bits)` for `v ≥ 2^bits`. Payloads are canonical. -/
+theorem try_from_spec (bits : ℕ) (t : Prim) (ht : PrimOk t) (v : ℤ) (hv : t.inRange v = true) :
+    (0 ≤ v ∧ v < 2 ^ bits → ∃ l, tryFrom bits t v = .ok l ∧ Canon bits l ∧ (val l : ℤ) = v)
+    ∧ (v < 0 → ∃ l, tryFrom bits t v = .negative bits l ∧ Canon bits l
+        ∧ (val l : ℤ) = v % 2 ^ t.width % 2 ^ bits
+        ∧ (bits ≤ t.width → (val l : ℤ) = v % 2 ^ bits))
+    ∧ (2 ^ bits ≤ v → ∃ l, tryFrom bits t v = .tooLarge bits l ∧ Canon bits l
+        ∧ (val l : ℤ) = v % 2 ^ bits) := by
+  obtain ⟨hw1, hw⟩ := ht
+  unfold Prim.inRange Prim.min Prim.max at hv
+  simp only [Bool.and_eq_true, decide_eq_true_eq] at hv
+  have hp2 : (2 : ℤ) ^ t.width = 2 * 2 ^ (t.width - 1) := by
+    rw [← pow_succ']; congr 1; omega
+  have hpp : (0 : ℤ) < 2 ^ (t.width - 1) := by positivity
+  -- in both signednesses a non-negative `v` goes through the unsigned conversion of `v.toNat`
+  have hlow : t.signed = false → 0 ≤ v := by
+    intro hs; simp only [hs, Bool.false_eq_true, if_false] at hv; exact hv.1
+  have hhigh : v < 2 ^ t.width := by
+    cases hs : t.signed
+    · simp only [hs, Bool.false_eq_true, if_false] at hv; omega
+    · simp only [hs, if_true] at hv; omega
+  have hnn : 0 ≤ v → tryFrom bits t v = tryFromUnsigned bits t.width v.toNat := by
+    intro h0
+    unfold tryFrom
+    cases hs : t.signed
+    · simp
+    · simp only [if_true]; exact tryFromSigned_nonneg bits t.width v h0 hhigh
+  have hnat : 0 ≤ v → v.toNat < 2 ^ t.width := by
+    intro h0; zify; rw [Int.toNat_of_nonneg h0]; exact hhigh
+  refine ⟨?_, ?_, ?_⟩
+  · rintro ⟨h0, hb⟩
+    obtain ⟨s1, _⟩ := tryFromUnsigned_spec bits t.width v.toNat hw (hnat h0)
+    obtain ⟨l, e, c, hval⟩ := s1 (by zify; rw [Int.toNat_of_nonneg h0]; exact hb)
+    exact ⟨l, by rw [hnn h0, e], c, by rw [hval, Int.toNat_of_nonneg h0]⟩
+  · intro hneg
+    have hs : t.signed = true := by
+      by_contra hc
+      have := hlow (by simpa using hc)
+      omega
+    obtain ⟨l, e, c, hval⟩ := tryFromSigned_neg bits t.width v hw hneg
+    have hcast : (val l : ℤ) = v % 2 ^ t.width % 2 ^ bits := by
+      rw [hval]; push_cast; rw [asUnsigned_cast]
+    refine ⟨l, by unfold tryFrom; simp only [hs, if_true]; exact e, c, hcast, fun hle => ?_⟩
+    rw [hcast]
+    exact Int.emod_emod_of_dvd v (pow_dvd_pow 2 hle)
+  · intro hb
+    have h0 : 0 ≤ v := le_trans (by positivity) hb
+    obtain ⟨_, s2⟩ := tryFromUnsigned_spec bits t.width v.toNat hw (hnat h0)
+    obtain ⟨l, e, c, hval⟩ := s2 (by zify; rw [Int.toNat_of_nonneg h0]; exact hb)
+    refine ⟨l, by rw [hnn h0, e], c, ?_⟩
+    rw [hval]; push_cast; rw [Int.toNat_of_nonneg h0]
+
+/-- `Uint::from`: the value when it fits, a panic otherwise. -/
+theorem from_spec (bits : ℕ) (t : Prim) (ht : PrimOk t) (v : ℤ) (hv : t.inRange v = true) :
+    (0 ≤ v ∧ v < 2 ^ bits → ∃ l, «from» bits t v = .ok l ∧ Canon bits l ∧ (val l : ℤ) = v)
+    ∧ (¬ (0 ≤ v ∧ v < 2 ^ bits) → «from» bits t v = .panic) := by
+  obtain ⟨h1, h2, h3⟩ := try_from_spec bits t ht v hv
+  unfold «from»
+  constructor
+  · intro h; obtain ⟨l, e, r⟩ := h1 h; exact ⟨l, by rw [e], r⟩
+  · intro h
+    by_cases hneg : v < 0
+    · obtain ⟨l, e, _⟩ := h2 hneg; rw [e]
+    · obtain ⟨l, e, _⟩ := h3 (by omega); rw [e]
+
+/-- `Uint::wrapping_from`: `v mod 2^bits` for every `v ≥ 0`, and for negative `v` whenever
+    `bits ≤ width(T)` (in general `(v as uN) mod 2^bits`). Always canonical, never a panic. -/
+theorem wrapping_from_spec (bits : ℕ) (t : Prim) (ht : PrimOk t) (v : ℤ) (hv : t.inRange v = true) :
+    ∃ l, wrappingFrom bits t v = .ok l ∧ Canon bits l
+      ∧ (val l : ℤ) = v % 2 ^ t.width % 2 ^ bits
+      ∧ (0 ≤ v ∨ bits ≤ t.width → (val l : ℤ) = v % 2 ^ bits) := by
+  obtain ⟨h1, h2, h3⟩ := try_from_spec bits t ht v hv
+  have hp : (0 : ℤ) < 2 ^ bits := by positivity
+  have hhigh : 0 ≤ v → v % 2 ^ t.width = v := by
+    intro h0
+    unfold Prim.inRange Prim.max at hv
+    simp only [Bool.and_eq_true, decide_eq_true_eq] at hv
+    have hp2 : (2 : ℤ) ^ t.width = 2 * 2 ^ (t.width - 1) := by
+      rw [← pow_succ']; congr 1; have := ht.1; omega
+    have hpp : (0 : ℤ) < 2 ^ (t.width - 1) := by positivity
+    apply Int.emod_eq_of_lt h0
+    cases hs : t.signed
+    · simp only [hs, Bool.false_eq_true, if_false] at hv; omega
+    · simp only [hs, if_true] at hv; omega
+  unfold wrappingFrom
+  by_cases hneg : v < 0
+  · obtain ⟨l, e, c, p1, p2⟩ := h2 hneg
+    rw [e]
+    refine ⟨l, rfl, c, p1, fun h => ?_⟩
+    rcases h with h | h
+    · omega
+    · exact p2 h
+  · have h0 : 0 ≤ v := by omega
+    by_cases hb : v < 2 ^ bits
+    · obtain ⟨l, e, c, p⟩ := h1 ⟨h0, hb⟩
+      rw [e]
+      have : v % 2 ^ bits = v := Int.emod_eq_of_lt h0 hb
+      exact ⟨l, rfl, c, by rw [hhigh h0, this, p], fun _ => by rw [this, p]⟩
+    · obtain ⟨l, e, c, p⟩ := h3 (by omega)
+      rw [e]
+      exact ⟨l, rfl, c, by rw [hhigh h0, p], fun _ => p⟩
+
+/-- `Uint::saturating_from`: `0` for negative, `MAX` for too large, else the value. -/
+theorem saturating_from_spec (bits : ℕ) (t : Prim) (ht : PrimOk t) (v : ℤ) (hv : t.inRange v = true) :
+    ∃ l, saturatingFrom bits t v = .ok l ∧ Canon bits l
+      ∧ (val l : ℤ) = Max.max 0 (Min.min v (2 ^ bits - 1)) := by
+  obtain ⟨h1, h2, h3⟩ := try_from_spec bits t ht v hv
+  have hp : (0 : ℤ) < 2 ^ bits := by positivity
+  unfold saturatingFrom
+  by_cases hneg : v < 0
+  · obtain ⟨l, e, _⟩ := h2 hneg
+    rw [e]
+    refine ⟨_, rfl, (zero_spec bits).1, ?_⟩
+    rw [(zero_spec bits).2]
+    have : Min.min v (2 ^ bits - 1) = v := min_eq_left (by omega)
+    rw [this, max_eq_left (by omega)]; rfl
+  · have h0 : 0 ≤ v := by omega
+    by_cases hb : v < 2 ^ bits
+    · obtain ⟨l, e, c, p⟩ := h1 ⟨h0, hb⟩
+      rw [e]
+      refine ⟨l, rfl, c, ?_⟩
+      rw [p, min_eq_left (by omega), max_eq_right h0]
+    · obtain ⟨l, e, _⟩ := h3 (by omega)
+      rw [e]
+      refine ⟨_, rfl, (max_spec bits).1, ?_⟩
+      rw [(max_spec bits).2, min_eq_right (by omega), max_eq_right (by omega)]
+      have : 1 ≤ 2 ^ bits := Nat.one_le_two_pow
+      push_cast [Nat.cast_sub this]; ring
+
+/-! ## limb slices (any length) -/
+
+/-- `overflowing_from_limbs_slice`: never panics; `(slice mod 2^bits, slice ≥ 2^bits)`, canonical. -/
+theorem overflowing_from_limbs_slice_spec (bits : ℕ) (sl : List ℕ) (hsl : AllLt sl) :
+    ∃ l o, overflowingFromLimbsSlice bits sl = some (l, o) ∧ Canon bits l
+      ∧ val l = val sl % 2 ^ bits ∧ (o = true ↔ 2 ^ bits ≤ val sl) :=
+  overflowingFromLimbsSlice_spec bits sl hsl
+
+/-- `from_limbs_slice` (panics), `checked_` (`None`), `wrapping_` (mod), `saturating_` (`MAX`). -/
+theorem from_limbs_slice_family_spec (bits : ℕ) (sl : List ℕ) (hsl : AllLt sl) :
+    (val sl < 2 ^ bits → ∃ l, Canon bits l ∧ val l = val sl ∧ fromLimbsSlice bits sl = .ok l
+        ∧ checkedFromLimbsSlice bits sl = .ok l ∧ wrappingFromLimbsSlice bits sl = .ok l
+        ∧ saturatingFromLimbsSlice bits sl = .ok l)
+    ∧ (2 ^ bits ≤ val sl → fromLimbsSlice bits sl = .panic ∧ checkedFromLimbsSlice bits sl = .none
+        ∧ (∃ l, wrappingFromLimbsSlice bits sl = .ok l ∧ Canon bits l ∧ val l = val sl % 2 ^ bits)
+        ∧ saturatingFromLimbsSlice bits sl = .ok (max bits)) := by
+  obtain ⟨l, o, e, c, hval, ho⟩ := overflowingFromLimbsSlice_spec bits sl hsl
+  unfold fromLimbsSlice checkedFromLimbsSlice wrappingFromLimbsSlice saturatingFromLimbsSlice
+  rw [e]
+  constructor
+  · intro h
+    have : o = false := by
+      cases o
+      · rfl
+      · have := ho.mp rfl; omega
+    subst this
+    exact ⟨l, c, by rw [hval, Nat.mod_eq_of_lt h], rfl, rfl, rfl, rfl⟩
+  · intro h
+    have : o = true := ho.mpr h
+    subst this
+    exact ⟨rfl, rfl, ⟨l, rfl, c, hval⟩, rfl⟩
+
+/-- `from_limbs` (exactly `LIMBS` limbs): the value iff it is below `2^bits`, a panic otherwise. -/
+theorem from_limbs_spec (bits : ℕ) (l : List ℕ) (hlen : l.length = nlimbs bits) (hl : AllLt l) :
+    (val l < 2 ^ bits → fromLimbs bits l = some l) ∧ (2 ^ bits ≤ val l → fromLimbs bits l = none) := by
+  obtain ⟨h1, h2⟩ := fromLimbs_spec bits l hlen hl
+  exact ⟨fun h => h1 ⟨hlen, hl, h⟩, fun h => h2 (fun hc => by have := hc.val_lt; omega)⟩
+
+/-! ## `Uint` ↔ `Uint` of another width -/
+
+/-- `Uint<dst>::uint_try_from(Uint<src>)`: `Ok` iff the value fits, else
+    `ValueTooLarge(dst, v mod 2^dst)`. -/
+theorem uint_try_from_spec (dst src : ℕ) (a : List ℕ) (ha : Canon src a) :
+    (val a < 2 ^ dst → ∃ l, uintTryFrom dst a = .ok l ∧ Canon dst l ∧ val l = val a)
+    ∧ (2 ^ dst ≤ val a → ∃ l, uintTryFrom dst a = .tooLarge dst l ∧ Canon dst l
+        ∧ val l = val a % 2 ^ dst) := by
+  obtain ⟨l, o, e, c, hval, ho⟩ := overflowingFromLimbsSlice_spec dst a ha.2.1
+  unfold uintTryFrom
+  rw [e]
+  constructor
+  · intro h
+    have : o = false := by
+      cases o
+      · rfl
+      · have := ho.mp rfl; omega
+    subst this
+    exact ⟨l, rfl, c, by rw [hval, Nat.mod_eq_of_lt h]⟩
+  · intro h
+    have : o = true := ho.mpr h
+    subst this
+    exact ⟨l, rfl, c, hval⟩
+
+/-- `Uint<src>::uint_try_to::<Uint<dst>>()`: `Ok` iff it fits, else
+    `Overflow(dst, v mod 2^dst, MAX_dst)`. -/
+theorem uint_try_to_spec (dst src : ℕ) (a : List ℕ) (ha : Canon src a) :
+    (val a < 2 ^ dst → ∃ l, uintTryTo dst a = .ok l ∧ Canon dst l ∧ val l = val a)
+    ∧ (2 ^ dst ≤ val a → ∃ l, uintTryTo dst a = .overflow dst l (max dst) ∧ Canon dst l
+        ∧ val l = val a % 2 ^ dst ∧ val (max dst) = 2 ^ dst - 1) := by
+  obtain ⟨l, o, e, c, hval, ho⟩ := overflowingFromLimbsSlice_spec dst a ha.2.1
+  unfold uintTryTo
+  rw [e]
+  constructor
+  · intro h
+    have : o = false := by
+      cases o
+      · rfl
+      · have := ho.mp rfl; omega
+    subst this
+    exact ⟨l, rfl, c, by rw [hval, Nat.mod_eq_of_lt h]⟩
+  · intro h
+    have : o = true := ho.mpr h
+    subst this
+    exact ⟨l, rfl, c, hval, (max_spec dst).2⟩
+
+/-! ## `Uint` → primitive -/
+
+/-- `to_int!` targets (`i8 … u64, isize, usize`): `Ok(val)` iff `val ≤ T::MAX`; otherwise
+    `Overflow(bits, val as T, T::MAX)` where `val as T` is `val mod 2^N` in two's complement. -/
+theorem to_int_spec (t : Prim) (hw1 : 1 ≤ t.width) (hw : t.width ≤ 64) (bits : ℕ) (a : List ℕ)
+    (ha : Canon bits a) :
+    ((val a : ℤ) ≤ t.max → toInt t bits a = .ok (val a))
+    ∧ (t.max < (val a : ℤ) → toInt t bits a = .overflow bits (castTo t (val a)) t.max) := by
+  have hdvd : 2 ^ t.width ∣ W := by unfold W; exact pow_dvd_pow 2 hw
+  have hcast : castTo t (limb a 0) = castTo t (val a) := by
+    rw [limb_zero a ha.2.1, castTo_mod t _ _ hdvd]
+  unfold toInt
+  simp only
+  by_cases h0 : bits = 0
+  · subst h0
+    have := canon_zero_bits a ha
+    subst this
+    simp only [if_true, val_nil, Nat.cast_zero]
+    refine ⟨fun _ => trivial, fun h => ?_⟩
+    unfold Prim.max at h
+    have : (0 : ℤ) < 2 ^ (t.width - 1) := by positivity
+    have : (0 : ℤ) < 2 ^ t.width := by positivity
+    split at h <;> omega
+  · simp only [h0, if_false]
+    have hmax : t.max = (2 : ℤ) ^ (if t.signed then t.width - 1 else t.width) - 1 := by
+      unfold Prim.max; split <;> rfl
+    have hiff : bitLen (val a) > (if t.signed then t.width - 1 else t.width) ↔ t.max < (val a : ℤ) := by
+      rw [bitLen_gt_iff, hmax]
+      constructor
+      · intro h; have : ((2 ^ (if t.signed then t.width - 1 else t.width) : ℕ) : ℤ) ≤ val a := by exact_mod_cast h
+        push_cast at this; omega
+      · intro h
+        have : ((2 ^ (if t.signed then t.width - 1 else t.width) : ℕ) : ℤ) ≤ val a := by push_cast; omega
+        exact_mod_cast this
+    constructor
+    · intro hle
+      rw [if_neg (by rw [hiff]; omega), hcast, castTo_fits t _ hw1 hle]
+    · intro hgt
+      rw [if_pos (hiff.mpr hgt), hcast]
+
+/-- `i128` / `u128` targets. -/
+theorem to_int128_spec (t : Prim) (hw : t.width = 128) (bits : ℕ) (a : List ℕ) (ha : Canon bits a) :
+    ((val a : ℤ) ≤ t.max → toInt128 t bits a = .ok (val a))
+    ∧ (t.max < (val a : ℤ) → toInt128 t bits a = .overflow bits (castTo t (val a)) t.max) := by
+  have hWW : W * W = 2 ^ 128 := by unfold W; norm_num
+  have hdvd : 2 ^ t.width ∣ W * W := by rw [hw, hWW]
+  have hdvd1 : 2 ^ t.width ∣ W * 2 ^ 64 := by rw [hw]; unfold W; norm_num
+  have hcast2 : castTo t (limb a 0 + W * limb a 1) = castTo t (val a) := by
+    rw [limb_zero_one a ha.2.1, castTo_mod t _ _ hdvd]
+  unfold toInt128
+  simp only
+  by_cases h0 : bits = 0
+  · subst h0
+    have := canon_zero_bits a ha
+    subst this
+    simp only [if_true, val_nil, Nat.cast_zero]
+    refine ⟨fun _ => trivial, fun h => ?_⟩
+    unfold Prim.max at h
+    have : (0 : ℤ) < 2 ^ (t.width - 1) := by positivity
+    have : (0 : ℤ) < 2 ^ t.width := by positivity
+    split at h <;> omega
+  · simp only [h0, if_false]
+    have hmax : t.max = (2 : ℤ) ^ (if t.signed then 127 else 128) - 1 := by
+      unfold Prim.max; rw [hw]; split <;> rfl
+    have hiff : bitLen (val a) > (if t.signed then 127 else 128) ↔ t.max < (val a : ℤ) := by
+      rw [bitLen_gt_iff, hmax]
+      constructor
+      · intro h; have : ((2 ^ (if t.signed then 127 else 128) : ℕ) : ℤ) ≤ val a := by exact_mod_cast h
+        push_cast at this; omega
+      · intro h
+        have : ((2 ^ (if t.signed then 127 else 128) : ℕ) : ℤ) ≤ val a := by push_cast; omega
+        exact_mod_cast this
+    by_cases hb : bits ≤ 64
+    · simp only [hb, if_true]
+      -- one limb: the value is below 2^64 and always fits
+      have hlt : val a < 2 ^ 64 := lt_of_lt_of_le ha.val_lt (Nat.pow_le_pow_right (by norm_num) hb)
+      have hfit : (val a : ℤ) ≤ t.max := by
+        rw [hmax]
+        have : (2 : ℤ) ^ 64 ≤ 2 ^ (if t.signed then 127 else 128) :=
+          pow_le_pow_right₀ (by norm_num) (by split <;> norm_num)
+        have : (val a : ℤ) < 2 ^ 64 := by exact_mod_cast hlt
+        omega
+      have hl0 : limb a 0 = val a := by
+        rw [limb_zero a ha.2.1, Nat.mod_eq_of_lt (by unfold W; exact hlt)]
+      refine ⟨fun _ => ?_, fun h => by omega⟩
+      rw [hl0, castTo_fits t _ (by omega) hfit]
+    · simp only [hb, if_false]
+      constructor
+      · intro hle
+        rw [if_neg (by rw [hiff]; omega), hcast2, castTo_fits t _ (by omega) hle]
+      · intro hgt
+        rw [if_pos (hiff.mpr hgt), hcast2]
+
+/-- `bool` target: `Ok(val = 1)` iff `val ≤ 1`; otherwise `Overflow(bits, bit 0, true)`. -/
+theorem to_bool_spec (bits : ℕ) (a : List ℕ) (ha : Canon bits a) :
+    (val a ≤ 1 → toBool bits a = .ok (val a))
+    ∧ (1 < val a → toBool bits a = .overflow bits ((val a % 2 : ℕ) : ℤ) 1) := by
+  unfold Conv.toBool
+  by_cases h0 : bits = 0
+  · subst h0
+    have := canon_zero_bits a ha
+    subst this
+    simp
+  · simp only [h0, if_false]
+    have hiff : bitLen (val a) > 1 ↔ 1 < val a := by rw [bitLen_gt_iff]; norm_num; omega
+    have hl0 := limb_zero a ha.2.1
+    constructor
+    · intro hle
+      rw [if_neg (by rw [hiff]; omega)]
+      have : limb a 0 = val a := by rw [hl0, Nat.mod_eq_of_lt (by unfold W; omega)]
+      rw [this]
+      rcases Nat.lt_or_ge (val a) 1 with h | h
+      · have : val a = 0 := by omega
+        simp [this]
+      · have : val a = 1 := by omega
+        simp [this]
+    · intro hgt
+      rw [if_pos (hiff.mpr hgt)]
+      have : limb a 0 % 2 = val a % 2 := by
+        rw [hl0]; exact Nat.mod_mod_of_dvd _ (by unfold W; norm_num)
+      congr 1
+      omega
+
+/-- **`T::try_from(&uint)`, `to`, `wrapping_to`, `saturating_to`** for every integer target `T`:
+    success iff the value fits; wrapping = value mod `2^N` read as two's complement for signed targets;
+    saturating = `T::MAX`; `to` panics exactly on overflow. -/
+theorem try_to_spec (t : Prim) (ht : PrimOk t) (bits : ℕ) (a : List ℕ) (ha : Canon bits a) :
+    ((val a : ℤ) ≤ t.max → tryTo false t bits a = .ok (val a) ∧ «to» false t bits a = some (val a)
+        ∧ wrappingTo false t bits a = val a ∧ saturatingTo false t bits a = val a)
+    ∧ (t.max < (val a : ℤ) → tryTo false t bits a = .overflow bits (castTo t (val a)) t.max
+        ∧ «to» false t bits a = none ∧ wrappingTo false t bits a = castTo t (val a)
+        ∧ saturatingTo false t bits a = t.max) := by
+  have key : ((val a : ℤ) ≤ t.max → tryTo false t bits a = .ok (val a))
+      ∧ (t.max < (val a : ℤ) → tryTo false t bits a = .overflow bits (castTo t (val a)) t.max) := by
+    unfold tryTo
+    simp only [Bool.false_eq_true, if_false]
+    by_cases h128 : t.width = 128
+    · simp only [h128, if_true]; exact to_int128_spec t h128 bits a ha
+    · simp only [h128, if_false]
+      exact to_int_spec t ht.1 (by have := ht.2; omega) bits a ha
+  unfold «to» wrappingTo saturatingTo
+  exact ⟨fun h => by rw [key.1 h]; exact ⟨rfl, rfl, rfl, rfl⟩,
+    fun h => by rw [key.2 h]; exact ⟨rfl, rfl, rfl, rfl⟩⟩
+
+/-- the same for `bool`. -/
+theorem try_to_bool_spec (bits : ℕ) (a : List ℕ) (ha : Canon bits a) :
+    (val a ≤ 1 → tryTo true boolT bits a = .ok (val a) ∧ «to» true boolT bits a = some (val a))
+    ∧ (1 < val a → tryTo true boolT bits a = .overflow bits ((val a % 2 : ℕ) : ℤ) 1
+        ∧ «to» true boolT bits a = none ∧ saturatingTo true boolT bits a = 1
+        ∧ wrappingTo true boolT bits a = ((val a % 2 : ℕ) : ℤ)) := by
+  obtain ⟨h1, h2⟩ := to_bool_spec bits a ha
+  unfold «to» wrappingTo saturatingTo tryTo
+  simp only [if_true]
+  exact ⟨fun h => by rw [h1 h]; exact ⟨rfl, rfl⟩, fun h => by rw [h2 h]; exact ⟨rfl, rfl, rfl, rfl⟩⟩
+
+/-- what `x as T` means: `x mod 2^N`, minus `2^N` when the sign bit is set (signed targets). -/
+theorem cast_to_spec (t : Prim) (x : ℕ) :
+    castTo t x = if t.signed ∧ 2 ^ (t.width - 1) ≤ x % 2 ^ t.width
+      then ((x % 2 ^ t.width : ℕ) : ℤ) - 2 ^ t.width else ((x % 2 ^ t.width : ℕ) : ℤ) := by
+  unfold castTo
+  simp only [Bool.and_eq_true, decide_eq_true_eq]
+
+/-! Non-vacuity: boundary instances evaluated by the kernel. -/
+example : tryFrom 7 ⟨8, true⟩ (-128) = .negative 7 [0] := by decide +kernel
+example : tryFrom 200 ⟨8, true⟩ (-1) = .negative 200 [255, 0, 0, 0] := by decide +kernel
+example : tryTo false ⟨8, true⟩ 65 [2 ^ 64 - 128, 1] = .overflow 65 (-128) 127 := by decide +kernel
+example : tryTo false ⟨128, true⟩ 129 [0, 2 ^ 63, 0] = .overflow 129 (-(2 ^ 127)) (2 ^ 127 - 1) := by
+  decide +kernel
 
 end Ruint.C07
